@@ -282,8 +282,9 @@ Definition sep_toks (s : sepshape) : list token :=
 Definition core_cell_keys : list string :=
   ["imp"; "vol"; "u"; "lat"; "fill"; "trcl"; "tmp"; "pwt"; "nonu"; "cosy"; "bflcl"; "ext"; "fcl"; "elpt";
    "unc"; "wwn"; "dxc"; "pd"].
+(* not "c": the lexers take a "c" that is followed by a blank or a line end for a comment line *)
 Definition core_letter_particles : list string :=
-  ["n"; "p"; "e"; "q"; "v"; "f"; "h"; "l"; "o"; "g"; "k"; "b"; "c"; "w"; "d"; "t"; "s"; "a"].
+  ["n"; "p"; "e"; "q"; "v"; "f"; "h"; "l"; "o"; "g"; "k"; "b"; "w"; "d"; "t"; "s"; "a"].
 Definition core_special_particles : list string := ["|"; "<"; ">"; "%"; "*"; "?"].
 
 Fixpoint parts_toks (first : bool) (ps : list token) : list token :=
@@ -380,7 +381,7 @@ Definition dcls_ok (d : dcls) : bool :=
   dmod_ok (d_mod d) && nat_nonzero (d_num d) && forallb dpart_ok (d_parts d).
 
 (* ---- generic data cards: classifier [KEYWORD] [data] { key = numbers } *)
-Definition core_dist_options : list string := ["h"; "l"; "a"; "s"; "d"; "c"; "v"].
+Definition core_dist_options : list string := ["h"; "l"; "a"; "s"; "d"; "v"].
 Definition ptok := (bool * string * option pad)%type.     (* (special?, designator, padding) *)
 Definition ptok_toks (p : ptok) : list token := dpart_tok (fst p) :: opad_toks (snd p).
 Inductive ddata :=
@@ -497,8 +498,18 @@ Definition core_mat_keys : list string :=
   ["gas"; "estep"; "hstep"; "nlib"; "plib"; "pnlib"; "elib"; "hlib"; "alib"; "slib"; "tlib"; "dlib";
    "cond"; "refi"; "refc"; "refs"].
 Definition mparam_key (m : mparam) : string := match m with MPNum k _ _ | MPLib k _ _ _ => k end.
+Fixpoint last_char (s : string) : option ascii :=
+  match s with
+  | EmptyString => None
+  | String a EmptyString => Some a
+  | String _ r => last_char r
+  end.
+(* a library identifier that ends in "e" is lexed as a NUMBER with an empty exponent, not as a NUMBER_WORD *)
+Definition lib_ok (lib : string) : bool :=
+  match last_char lib with Some a => negb (Ascii.eqb a "e"%char) | None => false end.
 Definition mparam_ok (m : mparam) : bool :=
-  mem_str (mparam_key m) core_mat_keys && match m with MPNum _ _ v => nlist_ok v | MPLib _ _ _ _ => true end.
+  mem_str (mparam_key m) core_mat_keys
+  && match m with MPNum _ _ v => nlist_ok v | MPLib _ _ lib _ => lib_ok lib end.
 
 (* [z_lib = true]: "1001.80c" (one ZAID token); [false]: "1001" (a NUMBER token) *)
 Record zfrac := mkZ { z_lib : bool; z_zaid : string; z_pad : option pad; z_frac : real; z_trail : option pad }.
@@ -578,6 +589,37 @@ Definition dispatch (by_substring : bool) (prefixes : list string) (key : string
 (* the class G_core expects: the parameter's own keyword when it is one of the modifier prefixes *)
 Definition expected_dispatch (prefixes : list string) (key : string) : list string :=
   filter (fun pfx => String.eqb pfx key) prefixes.
+
+(* ---- spellings of numbers that the lexers do not classify as NUMBER (the shape predicates and the derivability
+        theorems are about token classes and do not depend on this; it is the precondition of the per-sentence
+        comparison with the real lexer):
+        - an unsigned number that begins like a ZAID with a library, dddd.dde (4 to 6 digits, two decimals, e/E):
+          the ZAID rule comes before the NUMBER rule;
+        - a Fortran exponent directly after the decimal point (5.+3): fortran_float raises ValueError. *)
+Definition is_digit (a : ascii) : bool := let n := nat_of_ascii a in Nat.leb 48 n && Nat.leb n 57.
+Fixpoint skip_digits (s : string) : nat * string :=
+  match s with
+  | String a r => if is_digit a then let (n, rest) := skip_digits r in (S n, rest) else (O, s)
+  | EmptyString => (O, s)
+  end.
+Definition zaid_like_text (s : string) : bool :=
+  let (n, rest) := skip_digits s in
+  Nat.leb 4 n && Nat.leb n 6 &&
+  match rest with
+  | String "."%char r =>
+      let (m, rest2) := skip_digits r in
+      Nat.eqb m 2 && match rest2 with String c _ => Ascii.eqb c "e"%char || Ascii.eqb c "E"%char | _ => false end
+  | _ => false
+  end.
+Fixpoint dot_sign (after_dot : bool) (s : string) : bool :=
+  match s with
+  | EmptyString => false
+  | String a r =>
+      (after_dot && (Ascii.eqb a "+"%char || Ascii.eqb a "-"%char)) || dot_sign (Ascii.eqb a "."%char) r
+  end.
+Definition number_text_safe (s : string) : bool := negb (zaid_like_text s) && negb (dot_sign false s).
+Definition lex_safe (ts : list token) : bool :=
+  forallb (fun t => if String.eqb (fst t) "NUMBER" || String.eqb (fst t) "NULL" then number_text_safe (snd t) else true) ts.
 
 (* ------------------------------------------------------------------ 3. the LR driver
    sly.yacc.Parser.parse: the state stack starts as [0]; in a defaulted state (one whose only action is a
@@ -939,8 +981,8 @@ Definition lr_of (parser : string) (ts : list string) : string :=
   match lr_by_name parser with Some T => show_lr (lr_run T ts) | None => "-" end.
 
 (* requests:
-     "gen <mask> <postfix program>" -> "ok <0|1> <parser> <lr> <lr of the classifier | -> tok tok ..."
-        (1 = the shape predicate holds; lr = the verdict of the LR driver of the card's parser on the classes
+     "gen <mask> <postfix program>" -> "ok <0|1><0|1> <parser> <lr> <lr of the classifier | -> tok tok ..."
+        (first bit: the shape predicate holds; second bit: [lex_safe]; lr = the verdict of the LR driver of the card's parser on the classes
          of the rendered tokens: A accept, R<pos>/<state>/<class> reject, F fuel, T<why> inconsistent table)
      "lr <parser> <hexclass,hexclass,...>" -> the verdict of that parser's LR driver
      "dispatch <0|1> <prefix,prefix,..> <key>" -> the claiming prefixes
@@ -951,7 +993,8 @@ Definition run_CoreGrammar (req : string) : string :=
       match parse_shape prog with
       | Some sh =>
           let ts := gen sh in
-          "ok " ++ (if shape_ok_b sh then "1" else "0") ++ " " ++ parser_of sh ++ " "
+          "ok " ++ (if shape_ok_b sh then "1" else "0") ++ (if lex_safe ts then "1" else "0") ++ " "
+          ++ parser_of sh ++ " "
           ++ lr_of (parser_of sh) (classes ts) ++ " "
           ++ (match classifier_toks sh with [] => "-" | ct => lr_of "classifier" (classes ct) end) ++ " "
           ++ join " " (map show_tok (apply_mask (parse_mask c) (parse_mask c) ts))
